@@ -74,11 +74,13 @@ def handle (s : State) (f : String) (j : Json) : Except String (State × Json) :
   | "recv" =>
     let p ← getPkt j
     let app ← getApp j
-    -- unparseable packet data: the rate limiter lets the packet through untouched (keeper/packet.go)
+    -- unparseable packet data: the v1 rate limiter lets the packet through untouched (keeper/packet.go);
+    -- the v2 middleware cannot convert the payload and answers with an error acknowledgement
     if (j.getObjValD "bad") == Json.bool true then
-      pure (answer s "ok" [("ack", Json.str (ackStr app))]) else
+      let a := if (j.getObjValD "v2") == Json.bool true then AppAck.error else app
+      pure (answer s ("ack:" ++ ackStr a) [("ack", Json.str (ackStr a))]) else
     let (s', _, a) := recvPacket s p app
-    pure (answer s' "ok" [("ack", Json.str (ackStr a))])
+    pure (answer s' ("ack:" ++ ackStr a) [("ack", Json.str (ackStr a))])
   | "ack" =>
     let p ← getPkt j
     pure (answer (ackPacket s p (← bool j "success")) "ok")
